@@ -130,4 +130,4 @@ QUERIES = [
           outside=["precedents() of an input element (raises AttributeError on a cells whose formula never ran: modelx defect outside the property)",
                    "dependencies through ItemSpaces", "N > 3", "failed evaluations (graph == held after a failure is asserted in C05)"]),
 ]
-BUDGET = {"quick": 400, "thorough": 2400}
+BUDGET = {"quick": 400, "thorough": 1200}
